@@ -176,6 +176,10 @@ func (f *function) diffEnv() (bool, string, diff.ValueDiff, error) {
 
 	var reason string
 	switch len(reasons) {
+	case 0:
+		// The environments differ in a part that is not listed in functionEnvKeys, for example in a
+		// record that was written by another version or damaged on disk.
+		return false, "environment changed", d, nil
 	case 1:
 		reason = reasons[0]
 	case 2:
